@@ -50,6 +50,16 @@ pub fn check_cycle_misreport(case: &Case, st: &mut Stats) -> Check {
     r
 }
 
+/// C03's use of these cases: a run in which one file fails must still return (a run that does
+/// not return stalls the worker and is reported by the orchestrator); what it returns is C04's
+/// business
+pub fn check_terminates(case: &Case, st: &mut Stats) -> Check {
+    match check_directive(case, st) {
+        Err((m, s)) if s.contains("hang") || m.contains("deadlock") || m.contains("does not return") => Err((m, s)),
+        _ => Ok(()),
+    }
+}
+
 #[derive(Debug, Clone, Copy, PartialEq, Eq, Hash, Serialize, Deserialize)]
 pub enum Fault {
     FailingCommand,
